@@ -47,6 +47,11 @@ func main() {
 		fmt.Println("replay: the recorded case no longer violates the property")
 		return
 	}
+	if os.Args[1] == "c07iso" {
+		// one call in a fresh process: the isolated baseline of C07
+		props.C07IsoMain(os.Args[2:])
+		return
+	}
 	if os.Args[1] == "c08iso" {
 		// one Compile in a fresh process: the isolated baseline of C08
 		props.C08IsoMain(os.Args[2:])
